@@ -24,6 +24,8 @@ LEVEL = "exploration"
 SEP = "\x1e\n"
 BATCH = 160
 MAX_VIOL_PER_TASK = 120
+MAX_CONFIRM = 40          # fresh-simulator confirmations per timing task
+MAX_CONFIRM_A = 100       # single-case confirmations per format task
 
 
 def _new():
@@ -323,7 +325,9 @@ def _format_batch(out, form, w, sg, batch, values, avalues):
     # every suspect is confirmed by the replayable single-case run before it is reported
     seen = set()
     for spec, v in suspects:
-        if spec in seen or len(out["violations"]) >= MAX_VIOL_PER_TASK:
+        if spec in seen or len(out["violations"]) >= MAX_VIOL_PER_TASK or out["cov"].get("single_case_confirmations", 0) >= MAX_CONFIRM_A:
+            if spec not in seen:
+                _add(out, "violations_suppressed")
             continue
         problems = single_case(form, w, sg, spec, v)
         _add(out, "single_case_confirmations")
@@ -564,6 +568,7 @@ def w_timing(task):
     actions = [(iv, tm) for iv in range(4) for tm in masks]
     tag = timing_tag(desc)
     tot = dict.fromkeys(STAT_KEYS, 0)
+    confirmations = 0
     for cnt0, k0, L in plan:
         d = dict(desc, cnt0=cnt0, k0=k0)
         m, sigs, progs = build_timing(d)
@@ -584,6 +589,11 @@ def w_timing(task):
                     for kk, vv in stats.items():
                         tot[kk] += vv
                     if res is not None:
+                        _add(out, "timing_violating_sequences")
+                        pre_sig = f"timing:{tag}:{res[0]}:{res[1]}"
+                        if pre_sig in out["_sigs"] or confirmations >= MAX_CONFIRM:
+                            continue        # same statement / same kind already reported for this design
+                        confirmations += 1
                         # confirm on a fresh Simulator before reporting
                         res2, _s, _t = check_sequence(d, progs, fresh, seq)
                         if res2 is None or res2[:2] != res[:2]:
